@@ -80,7 +80,12 @@ def check(run):
             else:
                 lm.append((f"rln {op} {hx(b)}", b if len(b) >= 288 else bytes(288)))
         lines = rlngen.with_oracle(zkh, lm)
-        seqs.append(M["setup"] + lines)
+        # a caller whose reader fails after delivering the message (or whose output takes nothing): an error, no crash, and the
+        # next ordinary call answers as if nothing had happened
+        tail = rlngen.with_oracle(zkh, [(f"rln verify_rln {hx(full)}", msg), (f"rln verify {hx(msg)}", msg)])
+        io = [f"rln io r verify_rln {hx(full)}", tail[0], f"rln io r verify {hx(msg)}", tail[1],
+              f"rln io r recover {hx(msg)} {hx(msg)}", f"rln io w recover {hx(msg)} {hx(msg)}", tail[0]]
+        seqs.append(M["setup"] + lines + io)
     run.rules.append("from real messages: every truncation length of verify / verify_rln_proof / verify_with_roots / recover_id_secret inputs, over-long inputs, declared signal lengths {0,len-1,len+1,2^32,2^63,2^64-1,…}, random content per field and in the proof, every v+k*p alias of the five public values that fits 32 bytes, roots buffers of every length; distinct = distinct input line")
     run.differential("untrusted-input", seqs, spec_canon=rlngen.spec_verdict, shrink=False)
     # a roots buffer containing only an alias of the root: the verifier's own set, reduced silently (documented as such)
